@@ -31,6 +31,8 @@ pub enum SEv {
     PeerPingAck,
     /// PING acknowledgement with a payload nobody asked for (legal, to be ignored) - e.g. a late ack of a user ping
     PeerStrayPingAck,
+    /// WINDOW_UPDATE on the stream the peer opened last (possibly one the subject ignores because it is above the cut-off)
+    PeerWuOnLast,
     PeerDataEos(usize),
     PeerGoAway(u32, u32),
     Drive,
@@ -49,6 +51,7 @@ pub struct SWorld {
     pub push_ok_after_goaway: Vec<u32>,
     pub pings_acked: usize,
     pub stray_acks: usize,
+    pub wu_on_last: bool,
 }
 
 pub struct ServerShutdown {
@@ -58,7 +61,7 @@ pub struct ServerShutdown {
 
 impl ServerShutdown {
     pub fn new(name: &'static str, quick: bool) -> ServerShutdown {
-        let mut ev = vec![SEv::Graceful, SEv::Abrupt(2), SEv::PeerOpenNew, SEv::PeerPingAck, SEv::PeerStrayPingAck, SEv::Drive];
+        let mut ev = vec![SEv::Graceful, SEv::Abrupt(2), SEv::PeerOpenNew, SEv::PeerPingAck, SEv::PeerStrayPingAck, SEv::PeerWuOnLast, SEv::Drive];
         for k in 0..2 {
             ev.push(SEv::RespondEos(k));
             ev.push(SEv::Push(k));
@@ -89,7 +92,7 @@ impl Model for ServerShutdown {
         t.peer_request(1, "/a", false);
         t.peer_request(3, "/b", false);
         t.drive(50);
-        SWorld { opened: vec![1, 3], peer_done: vec![false, false], graceful: false, abrupt: None, peer_goaway: None, peer_goaway_processed: false, max_accepted_before: 3, goaways_seen: 0, push_ok_after_goaway: vec![], pings_acked: 0, stray_acks: 0 }
+        SWorld { opened: vec![1, 3], peer_done: vec![false, false], graceful: false, abrupt: None, peer_goaway: None, peer_goaway_processed: false, max_accepted_before: 3, goaways_seen: 0, push_ok_after_goaway: vec![], pings_acked: 0, stray_acks: 0, wu_on_last: false }
     }
     fn n_events(&self) -> usize {
         self.events.len()
@@ -113,6 +116,7 @@ impl Model for ServerShutdown {
                 pings > w.pings_acked
             }
             SEv::PeerStrayPingAck => w.stray_acks < 1,
+            SEv::PeerWuOnLast => w.opened.len() > 2 && !w.wu_on_last,
             SEv::PeerDataEos(k) => !w.peer_done[*k] && t.rst_sent(w.opened[*k]).is_empty(),
             SEv::PeerGoAway(last, _) => w.peer_goaway.map(|(l, _)| *last <= l).unwrap_or(true) && w.peer_goaway.map(|(l, _)| l != *last).unwrap_or(true),
             SEv::Drive => true,
@@ -183,6 +187,10 @@ impl Model for ServerShutdown {
                 t.peer_send(&wf::ping([9; 8], true));
                 w.stray_acks += 1;
             }
+            SEv::PeerWuOnLast => {
+                t.peer_send(&wf::window_update(*w.opened.last().unwrap(), 10));
+                w.wu_on_last = true;
+            }
             SEv::PeerDataEos(k) => {
                 t.peer_send(&wf::data(w.opened[k], b"end", true));
                 w.peer_done[k] = true;
@@ -229,6 +237,13 @@ impl Model for ServerShutdown {
                 if i > gi && f.raw.stream() > l && f.raw.stream() % 2 == 1 && matches!(f.raw.ty, wf::ty::HEADERS | wf::ty::DATA | wf::ty::RST_STREAM | wf::ty::PUSH_PROMISE) {
                     v.push(("C15.stream-above-goaway-answered".into(), wf::type_name(f.raw.ty).into(), format!("after GOAWAY(last={}) the server sent {} on stream {}", l, wf::type_name(f.raw.ty), f.raw.stream())));
                 }
+            }
+        }
+        // nothing the (legal) peer of this model sends turns the shutdown into a connection error: streams at or below the
+        // cut-off are to run to completion
+        if w.abrupt.is_none() {
+            if let Some(g) = gs.iter().find(|g| g.2 != 0) {
+                v.push(("C15.shutdown-turned-into-error".into(), format!("code{}", g.2), format!("the peer sent only legal frames, yet the server sent GOAWAY(last={}, code {}) - in-flight streams are cut off", g.1, g.2)));
             }
         }
         // after a GOAWAY from the peer has been processed no new push is started
@@ -320,7 +335,7 @@ impl Model for ServerShutdown {
     }
     fn digest_extra(&self, t: &T2, w: &SWorld) -> String {
         format!(
-            "opened={:?} done={:?} graceful={} abrupt={:?} peer_goaway={:?}/{} acked={}/{} goaways={:?} acc={:?}",
+            "opened={:?} done={:?} graceful={} abrupt={:?} peer_goaway={:?}/{} acked={}/{}/{} goaways={:?} acc={:?}",
             w.opened,
             w.peer_done,
             w.graceful,
@@ -329,6 +344,7 @@ impl Model for ServerShutdown {
             w.peer_goaway_processed,
             w.pings_acked,
             w.stray_acks,
+            w.wu_on_last,
             goaways_sent(t).iter().map(|g| (g.1, g.2)).collect::<Vec<_>>(),
             t.accepted.iter().map(|a| (a.sid, a.respond.is_some(), a.body.is_some())).collect::<Vec<_>>()
         )
